@@ -21,7 +21,7 @@ ASSUMPTIONS = [
   "operator may raise or give the exact result for k mod 2^n; int shift amount >= 2^n may raise "
   "or give 0; division/modulo by zero is excluded (counted)",
 ]
-QUICK_S = 60
+QUICK_S = 240
 THOROUGH_S = 900
 
 ARITH = {
